@@ -109,9 +109,12 @@ pub(crate) mod kani_tuple {
 
     // C15/C04: Tuple[K', X] for a symbolic table row and every internal symbol id reachable from a 24-bit ESI
     // (X = ESI + K' - K < 2^24 + K'): equals the RFC tuple, lies in range, no panic, no overflow.
+    // C15: Tuple[K', X] for a symbolic table row and every internal symbol id reachable from a 24-bit ESI: every component in
+    // range, no panic, no arithmetic overflow on any path (the real rand and deg inlined).  Equality with the RFC tuple is an
+    // integer-arithmetic statement (64-bit products) and is proved in the Verus unit V-RNG instead.
     #[kani::proof]
     #[kani::unwind(32)]
-    pub(crate) fn tuple_matches_rfc() {
+    pub(crate) fn tuple_in_range_no_panic() {
         let idx: usize = kani::any();
         let x: u32 = kani::any();
         kani::assume(idx < 477);
@@ -119,12 +122,10 @@ pub(crate) mod kani_tuple {
         let p1 = p1_row(idx).1;
         kani::assume((x as u64) < 16777216u64 + kp as u64);
         let (d, a, b, d1, a1, b1) = intermediate_tuple(x, w, j, p1);
-        let s = tuple_spec(idx, x);
-        assert!((d, a, b, d1, a1, b1) == s, "C15 intermediate_tuple == RFC Tuple[K',X]");
         assert!(1 <= d && d <= 30 && d <= w - 2, "C15 1 <= d <= min(30, W-2)");
         assert!(1 <= a && a < w, "C15 1 <= a < W");
         assert!(b < w, "C15 b < W");
-        assert!(d1 == 2 || d1 == 3, "C15 d1 in {2,3}");
+        assert!(d1 == 2 || d1 == 3, "C15 d1 is 2 or 3");
         assert!(1 <= a1 && a1 < p1, "C15 1 <= a1 < P1");
         assert!(b1 < p1, "C15 b1 < P1");
         kani::cover!(idx == 118 && x == 3158229, "reach: the ISI whose y is 2^32 - 1");
